@@ -248,27 +248,17 @@ fn cmp_seek() {
         }
         if v_str("op", "start") != "start" {
             // the state a relative seek leaves behind must also carry sequential reading to the very
-            // end of the stream (a stale in-block counter shows only at the next block edge)
+            // end of the stream (a stale in-block counter shows only at the next block edge).
+            // seek(Start(cur)) leaves the reader INSIDE the block holding cur.
             let cur = v_u64("cur", 0).min(total);
             let d = v_i64("d", 0);
             rd.seek(SeekFrom::Start(cur)).ok()?;
             reference.seek(SeekFrom::Start(cur)).ok()?;
-            let mut one = [0u8; 1];
-            if v_u64("in_data", 1) == 1 && cur < total {
-                // make sure the reader is inside the block (not freshly positioned only)
-                let _ = rd.read(&mut one);
-                let _ = reference.read(&mut one);
-                rd.seek(SeekFrom::Current(-1)).ok();
-                reference.seek(SeekFrom::Current(-1)).ok();
-                rd.seek(SeekFrom::Start(cur)).ok()?;
-                let _ = rd.read(&mut one);
-                reference.seek(SeekFrom::Start(cur + 1)).ok();
-            }
-            let sf = if v_u64("from_end", 0) == 1 { SeekFrom::End(d) } else { SeekFrom::Current(if v_u64("in_data", 1) == 1 && cur < total { d - 1 } else { d }) };
-            let want = reference.seek(if v_u64("from_end", 0) == 1 { SeekFrom::End(d) } else { sf }).ok();
-            let got = rd.seek(sf).ok();
-            if let (Some(w), Some(g)) = (want, got) {
-                if w == g && w <= total {
+            let sf = if v_u64("from_end", 0) == 1 { SeekFrom::End(d) } else { SeekFrom::Current(d) };
+            let want = reference.seek(sf).ok().filter(|w| *w <= total);
+            let got = rd.seek(sf);
+            match (want, got) {
+                (Some(w), Ok(g)) if w == g => {
                     let mut rest = Vec::new();
                     let mut buf = vec![0u8; 1 << 16];
                     loop {
@@ -279,11 +269,11 @@ fn cmp_seek() {
                         }
                     }
                     if rest.len() as u64 != total - w || rest[..] != data[w as usize..] {
-                        return Some(format!("after a relative seek to {w} (from {cur}, reader inside its block) sequential reading returned {} bytes, the stream holds {} more", rest.len(), total - w));
+                        return Some(format!("after seek(Start({cur})) then {sf:?} (position {w}) sequential reading returned {} bytes, the stream holds {} more", rest.len(), total - w));
                     }
-                } else if w <= total {
-                    return Some(format!("relative seek from {cur} by {d} returned {g}, a cursor returns {w}"));
                 }
+                (Some(w), other) => return Some(format!("{sf:?} from {cur} gave {other:?}, a cursor gives {w}")),
+                _ => {}
             }
         }
         None
